@@ -787,14 +787,14 @@ func main() {
 	}
 	ringVerify("the end of the round-trip sections")
 	ringOn = false // the cases below hold their results themselves (and run on many goroutines)
-	nHeld := c.N(30, 600)
+	nHeld := c.N(24, 600)
 	for _, name := range names {
 		name := name
 		c.Cases("held/"+name, nHeld, func(i int, r *vlib.Rand) {
 			heldPackCase(fmt.Sprintf("held/%s#%d", name, i), name, names, r, false)
 		})
 	}
-	nHeldPar := c.N(30, 400) * len(names)
+	nHeldPar := c.N(24, 400) * len(names)
 	c.ParallelCases("held-parallel", nHeldPar, 8, func(i int, r *vlib.Rand) {
 		name := names[int(vlib.Mix(uint64(i))%uint64(len(names)))]
 		heldPackCase(fmt.Sprintf("held-parallel#%d", i), name, names, r, true)
